@@ -230,6 +230,13 @@ macro_rules! options {
                     $($name: MMTKOption::new($default, $validator)),*
                 }
             }
+
+            /// verif hook (C39): the name, the declared type and the `Debug` rendering of the
+            /// current value of every option, in declaration order.  Read-only.
+            #[cfg(feature = "verif")]
+            pub(crate) fn verif_snapshot(&self) -> Vec<(&'static str, &'static str, String)> {
+                vec![$((stringify!($name), stringify!($type), format!("{:?}", *self.$name))),*]
+            }
         }
     ]
 }
